@@ -34,7 +34,7 @@ def _root_.MV.GS.A (E : Env) (s : GS) : Nat := if s.isDefault then max E.c.elemA
 
 /-- the state after a successful (re)allocation to capacity `c`, alignment `a` -/
 def _root_.MV.GS.grown (s : GS) (c a : Nat) (req : Action) : GS :=
-  { s with isDefault := false, len := s.L, cap := c, align := a, fresh := none,
+  { s with isDefault := false, len := s.L, cap := c, align := a, fresh := none, mirrored := false,
            acts := s.acts ++ [req, .install ⟨s.L, c, a⟩], allocIdx := s.allocIdx + 1 }
 
 /-- the state after a failed request -/
@@ -42,6 +42,22 @@ def _root_.MV.GS.refused (s : GS) (req : Action) : GS :=
   { s with acts := s.acts ++ [req], allocIdx := s.allocIdx + 1 }
 
 def allocRefused (E : Env) (s : GS) (size : Nat) : Bool := E.fail s.allocIdx || decide (allocLimit < size)
+
+/-- once the new layout exists, the word in front of the elements is computed and written without incident -/
+theorem mirror_ok (E : Env) (c a : Nat) (L : Layout) (hL : make_layout E c a = .ok L) :
+    next_aligned E hdrSize a = .ok (alignUp hdrSize a) ∧
+    usub E.m (alignUp hdrSize a) wordSize = .ok (alignUp hdrSize a - wordSize) ∧
+    alignUp hdrSize a - wordSize + wordSize = alignUp hdrSize a := by
+  obtain ⟨_, hp, hs⟩ := make_layout_ok E c a L hL
+  have hpos := isPow2_pos _ hp
+  have hW : hdrSize < W := by decide
+  have hge := alignUp_ge hdrSize a
+  have hlt : alignUp hdrSize a < W := by
+    have : alignUp hdrSize a ≤ totalSize E.c c a := by unfold totalSize dataOff; omega
+    have h2 : ISIZE_MAX + 1 < W := by decide
+    omega
+  have h24 : wordSize ≤ alignUp hdrSize a := by simp only [hdrSize, wordSize] at *; omega
+  refine ⟨by rw [next_aligned_eq _ _ _ hpos hW, if_pos hlt], by unfold usub; rw [if_pos h24], by omega⟩
 
 /-- Complete description of `grow` (every path, every input). -/
 theorem grow_spec (E : Env) (s : GS) (c a : Nat) (hf : s.fresh = none) :
@@ -79,8 +95,9 @@ theorem grow_spec (E : Env) (s : GS) (c a : Nat) (hf : s.fresh = none) :
               simp [grow, GM.debugAssert, GS.L, GS.C, GS.A, hd, h3, hL, hr, hr', GM.alloc, Tok.isNull,
                 GM.handleAllocError, GS.refused]
             · have hr' := hr; rw [hrefuse] at hr'
+              obtain ⟨m1, m2, m3⟩ := mirror_ok E _ a L hL
               simp [grow, GM.debugAssert, GS.L, GS.C, GS.A, hd, h3, hL, hr, hr', GM.alloc, Tok.isNull,
-                GM.writeHeader, GM.setBuf, GS.grown]
+                GM.writeHeader, GM.setBuf, GS.grown, GM.writeMirror, m1, m2, m3]
       · cases hL : make_layout E c a with
         | error p => simp [grow, GM.debugAssert, GS.L, GS.C, GS.A, hd, h2, hL]
         | ok L =>
@@ -89,8 +106,9 @@ theorem grow_spec (E : Env) (s : GS) (c a : Nat) (hf : s.fresh = none) :
             simp [grow, GM.debugAssert, GS.L, GS.C, GS.A, hd, h2, hL, hr, hr', GM.alloc, Tok.isNull,
               GM.handleAllocError, GS.refused]
           · have hr' := hr; rw [hrefuse] at hr'
+            obtain ⟨m1, m2, m3⟩ := mirror_ok E _ a L hL
             simp [grow, GM.debugAssert, GS.L, GS.C, GS.A, hd, h2, hL, hr, hr', GM.alloc, Tok.isNull,
-              GM.writeHeader, GM.setBuf, GS.grown]
+              GM.writeHeader, GM.setBuf, GS.grown, GM.writeMirror, m1, m2, m3]
   | false =>
     simp only [GS.L, GS.C, GS.A, hd, Bool.false_eq_true, if_false]
     by_cases h1 : c < s.len
@@ -110,8 +128,9 @@ theorem grow_spec (E : Env) (s : GS) (c a : Nat) (hf : s.fresh = none) :
               simp [grow, GM.debugAssert, GS.L, GS.C, GS.A, hd, h1, h1', hL, ha, hr, hr',
                 GM.realloc, Tok.isNull, GM.handleAllocError, GS.refused]
             · have hr' := hr; rw [hrefuse] at hr'
+              obtain ⟨m1, m2, m3⟩ := mirror_ok E _ a L hL
               simp [grow, GM.debugAssert, GS.L, GS.C, GS.A, hd, h1, h1', hL, ha, hr, hr',
-                GM.realloc, Tok.isNull, GM.writeHeader, GM.setBuf, GS.grown, hf]
+                GM.realloc, Tok.isNull, GM.writeHeader, GM.setBuf, GS.grown, hf, GM.writeMirror, m1, m2, m3]
       · cases hL : make_layout E c a with
         | error p => simp [grow, GM.debugAssert, GS.L, GS.C, GS.A, hd, h1, h1', hL, hc]
         | ok L =>
@@ -123,8 +142,9 @@ theorem grow_spec (E : Env) (s : GS) (c a : Nat) (hf : s.fresh = none) :
               simp [grow, GM.debugAssert, GS.L, GS.C, GS.A, hd, h1, h1', hL, hL0, hc, hr, hr',
                 GM.realloc, Tok.isNull, GM.handleAllocError, GS.refused]
             · have hr' := hr; rw [hrefuse] at hr'
+              obtain ⟨m1, m2, m3⟩ := mirror_ok E _ a L hL
               simp [grow, GM.debugAssert, GS.L, GS.C, GS.A, hd, h1, h1', hL, hL0, hc, hr, hr',
-                GM.realloc, Tok.isNull, GM.writeHeader, GM.setBuf, GS.grown, hf]
+                GM.realloc, Tok.isNull, GM.writeHeader, GM.setBuf, GS.grown, hf, GM.writeMirror, m1, m2, m3]
 
 /-- header words and pending block unchanged (only the request log and counter may differ) -/
 def _root_.MV.GS.sameHdr (s s' : GS) : Prop :=
